@@ -226,8 +226,8 @@ def case_insitu(ctx, rng, idx):
 
 
 GENS = {
-    "direct": Gen(case_direct, 6000, 600000),
-    "insitu": Gen(case_insitu, 300, 30000),
+    "direct": Gen(case_direct, 6000, 1800000),
+    "insitu": Gen(case_insitu, 300, 90000),
 }
 MIN_EVALS = {"nonnegative": 1000, "sums-to-total": 1000,
              "kkt-returned-level": 1000, "matches-reference": 1000,
